@@ -263,7 +263,11 @@ def main(argv):
     os.environ['VERIF_REPO_ROOT'] = a.root
     if a.what == 'replay':
         rep = json.load(open(a.arg))
-        st, ctx, lines, _ = run_property(rep['property'], rep.get('tier', 'quick'), rep.get('root', a.root), quiet=True)
+        root = rep.get('root', a.root)
+        if not os.path.isdir(root):
+            root = a.root           # the scratch copy the report was made on is gone: replay on the current tree
+        os.environ['VERIF_NO_EVIDENCE'] = '1'
+        st, ctx, lines, _ = run_property(rep['property'], 'quick', root, quiet=True)
         hit = [o for o in ctx.obs if o.rule == rep['rule'] and o.instance == rep['instance']]
         for o in hit:
             print(json.dumps(o.as_dict(), indent=1))
